@@ -30,6 +30,10 @@ BUILT = {
          "Exhaustive TLC model check with up to two pause/continue cycles of the client in every state (protocols 3 and 4, both directions): a pause during which the peer never waits a full time-out completes with both sides ok, no file data is written while paused (action property), no side ever reports success for a wrong file, every behaviour terminates; bound to the code by pausing the real client before/after every protocol message of real transfers and continuing after 0.2x/0.5x/1.3x/2.5x the time-out (and three short cycles), judging results, destination equality, time to return and the number of DATA lines written while paused.",
          "Trusts TLC and the harness wire; short pause = at most half the time-out (3 s); pause()/resume() are called directly instead of through the prompt UI; keep-alive lines are reported but not required.",
          "2/C18", "transfer"),
+ "C12": ("TLA+ spec Transfer.tla with message damage checked by TLC; real transfers with one protocol field replaced in flight by boundary values, run in address-space-limited child processes, validated against TransferObs.tla (ObsNoCrash, ObsBoundedMemory, ObsReturnInTime)",
+         "TLC checks that in the design every damaged, unexpected or forged message leads to Fail or a harmless continuation with all state in range; bound to the code by replacing, in real transfers, the payload of one message at a time (every message of both directions; NUM/SIZE/SUCC integers and len/step pairs, DATA headers and payloads, NAME/target/HASH/ACT/CFG JSON documents field by field, digests, EXIT text, forged FAIL, unknown types) with negative, zero, off-by-one, 2^31, 2^62, 2^63-1, non-numeric, empty, oversized, wrong-type, missing-field, truncated JSON/base64/zlib values, for both roles, base64/binary, prefix-hash and archive modes, with a progress display attached; each shard runs in a child process with RLIMIT_AS 6 GiB and a child that dies is attributed to the case it had marked.",
+         "Single mutation per run; the honest peer continues normally after the mutated message; terminal-output scanners are covered by C05/C06/C19; 'session usable afterwards' is covered by C05's histories; results ok/fail are not judged (a renaming peer is indistinguishable from another honest transfer).",
+         "2/C12", "transfer"),
 }
 checks = []
 for p in props:
